@@ -56,6 +56,16 @@ def check_band(rec, g, workdir, path=None):
             if d.shape != want.shape or not np.array_equal(np.rint(d), want):
                 raise Div("piece_data", {"piece": k, "file_channels": [p["lo"], p["hi"]], "rows": rows, "ids": want.tolist()},
                           {"shape": list(d.shape), "ids": np.rint(d).tolist() if d.size < 200 else "..."})
+            # the piece as a Frame (before it is ever written): same channels, registered at the same sky frequencies
+            try:
+                pf = stg.Frame(waterfall=wf)
+            except Exception as e:
+                raise Div("piece_as_frame.exception", "a frame", "%s: %s" % (type(e).__name__, str(e)[:120]))
+            lo_w = int(round((pf.fmin - g["f0"]) / g["df"]))
+            if pf.fchans != F or lo_w != min(cols) or bool(pf.ascending) != asc or \
+                    not np.array_equal(np.rint(pf.data), np.array([[1000.0 * (i + 1) + c for c in sorted(cols)] for i in range(rows)])):
+                raise Div("piece_as_frame", {"piece": k, "lowest_world_channel": min(cols), "fchans": F, "ascending": asc},
+                          {"lowest_world_channel": lo_w, "fchans": int(pf.fchans), "ascending": bool(pf.ascending)})
             h = wf.header
             foff = float(h["foff"]) * 1e6
             f_first = float(wf.container.f_stop if foff < 0 else wf.container.f_start) * 1e6
